@@ -329,6 +329,7 @@ func (g *Gen) findLoops() {
 		kids []*astLoop
 		ord  int
 	}
+	var keys []string // header text of the loops in ordinal order
 	var body *ast.BlockStmt
 	switch n := fn.Syntax().(type) {
 	case *ast.FuncDecl:
@@ -349,12 +350,18 @@ func (g *Gen) findLoops() {
 				return false
 			case *ast.ForStmt:
 				ord++
+				k := "for"
+				if s.Cond != nil {
+					k = "for " + types.ExprString(s.Cond)
+				}
+				keys = append(keys, k)
 				l := &astLoop{ord: ord}
 				l.kids = build(s.Body)
 				res = append(res, l)
 				return false
 			case *ast.RangeStmt:
 				ord++
+				keys = append(keys, "range "+types.ExprString(s.X))
 				l := &astLoop{ord: ord}
 				l.kids = build(s.Body)
 				res = append(res, l)
@@ -392,6 +399,79 @@ func (g *Gen) findLoops() {
 			g.notes = append(g.notes, "loop nest matched by position fallback")
 		} else {
 			g.refusef("loop nest of SSA (%d loops) does not match AST (%d loops)", len(all), ord)
+		}
+	}
+	g.rematchLoops(all, keys)
+}
+
+// rematchLoops keeps the loop ordinals of the contract meaningful when loops were added to or removed from the function.
+// Contracts name loops by their ordinal on the pinned tree; baseline/loops.json records the header text of every loop
+// (`range <expr>` / `for <cond>`) of the functions under contract there.  When the number of loops differs from the
+// recorded one, the loops are aligned with the recorded ones by header text, in order (longest common subsequence): an
+// aligned loop takes the recorded ordinal, a loop that is new takes an ordinal above all recorded ones (no contract clause
+// can name it, so it is an ordinary loop without invariant), and a recorded loop that has no partner leaves its clauses
+// without a loop, which is refused below.  With an equal count nothing changes (position decides, as before).
+func (g *Gen) rematchLoops(all []*loopInfo, keys []string) {
+	fn := g.fn.String()
+	if len(keys) > 0 && g.eng.seenLoops != nil {
+		g.eng.seenLoops[fn] = keys
+	}
+	base := g.eng.loopKeys[fn]
+	if base != nil && len(base) != len(keys) {
+		n, m := len(base), len(keys)
+		lcs := make([][]int, n+1)
+		for i := range lcs {
+			lcs[i] = make([]int, m+1)
+		}
+		for i := n - 1; i >= 0; i-- {
+			for j := m - 1; j >= 0; j-- {
+				if base[i] == keys[j] {
+					lcs[i][j] = lcs[i+1][j+1] + 1
+				} else if lcs[i+1][j] >= lcs[i][j+1] {
+					lcs[i][j] = lcs[i+1][j]
+				} else {
+					lcs[i][j] = lcs[i][j+1]
+				}
+			}
+		}
+		newOrd := map[int]int{} // current ordinal -> recorded ordinal
+		for i, j := 0, 0; i < n && j < m; {
+			if base[i] == keys[j] {
+				newOrd[j+1] = i + 1
+				i++
+				j++
+			} else if lcs[i+1][j] >= lcs[i][j+1] {
+				i++
+			} else {
+				j++
+			}
+		}
+		extra := n
+		for j := 1; j <= m; j++ {
+			if _, ok := newOrd[j]; !ok {
+				extra++
+				newOrd[j] = extra
+			}
+		}
+		for _, l := range all {
+			l.ordinal = newOrd[l.ordinal]
+		}
+		g.notes = append(g.notes, fmt.Sprintf("loops re-aligned with the pinned tree by header text (%d recorded, %d now)", n, m))
+	}
+	if g.ct != nil {
+		have := map[int]bool{}
+		for _, l := range all {
+			have[l.ordinal] = true
+		}
+		var missing []int
+		for n := range g.ct.Loops {
+			if !have[n] {
+				missing = append(missing, n)
+			}
+		}
+		sort.Ints(missing)
+		for _, n := range missing {
+			g.refusef("the contract has clauses for loop %d, but the function has no such loop (loops: %v)", n, keys)
 		}
 	}
 }
@@ -1388,7 +1468,12 @@ func (g *Gen) applyLoopHavoc(li *loopInfo, st *State, all bool, tags map[string]
 			}
 			sort.Strings(roots)
 			for _, r := range roots {
-				cond = fmt.Sprintf("(and %s (not (= (rb r) %s)))", cond, r)
+				// a write through a nil root panics: nothing is written through it
+				if strings.HasPrefix(r, "(rb ") && strings.HasSuffix(r, ")") {
+					cond = fmt.Sprintf("(and %s (or (= %s null) (not (= (rb r) %s))))", cond, r[4:len(r)-1], r)
+				} else {
+					cond = fmt.Sprintf("(and %s (not (= (rb r) %s)))", cond, r)
+				}
 			}
 			nw := st.mem[t]
 			g.sc.emit("(assert (forall ((r Ref)) (! (=> %s (= (select %s r) (select %s r))) :pattern ((select %s r)))))", cond, nw, old, nw)
